@@ -60,8 +60,8 @@ theorem chunkParse_no_panic {c : ChunkState} {raw : Bytes} {e : Fail}
     simp only [hl] at h; subst h
     exact chunkLoop_no_panic hl
 
-theorem respStep_no_panic {s : RespState} {rem : Bytes} {e : Fail}
-    (hI : RespInv s) (h : respStep s rem = .fail e) : ∃ cat, e = .err cat := by
+theorem respStep_no_panic {hl : Option Nat} {s : RespState} {rem : Bytes} {e : Fail}
+    (hI : RespInv s) (h : respStep hl s rem = .fail e) : ∃ cat, e = .err cat := by
   unfold respStep at h
   unfold RespInv at hI
   split at h
@@ -95,32 +95,32 @@ theorem respStep_no_panic {s : RespState} {rem : Bytes} {e : Fail}
         · simp at h; exact ⟨_, h.symm⟩
         · simp at h
 
-theorem respLoop_no_panic {f : Nat} {s : RespState} {rem : Bytes} {acc : Nat} {e : Fail}
-    (hI : RespInv s) (h : respSys.loop f s rem acc = some (.fail e)) : ∃ cat, e = .err cat := by
+theorem respLoop_no_panic {hl : Option Nat} {f : Nat} {s : RespState} {rem : Bytes} {acc : Nat} {e : Fail}
+    (hI : RespInv s) (h : (respSys hl).loop f s rem acc = some (.fail e)) : ∃ cat, e = .err cat := by
   induction f generalizing s rem acc with
   | zero => simp [Sys.loop] at h
   | succ f ih =>
     unfold Sys.loop at h
-    cases hs : respSys.step s rem with
+    cases hs : (respSys hl).step s rem with
     | fail e1 =>
       simp only [hs, Option.some.injEq, PRes.fail.injEq] at h; subst h
       exact respStep_no_panic hI hs
     | ok i s1 c1 =>
       cases i with
-      | completePart => simp only [hs] at h; exact ih (respSys_lawful.inv hI hs (by simp)) h
+      | completePart => simp only [hs] at h; exact ih ((respSys_lawful hl).inv hI hs (by simp)) h
       | completeWhole => simp [hs] at h
       | incomplete => simp [hs] at h
 
-/-- C06 for response parsing (all framings) on the repaired tree: never a trap, never out of fuel -/
-theorem C06_response_no_crash (ds : List Bytes) :
+/-- C06 for response parsing (all framings, any header line limit) on the current tree: never a trap, never out of fuel -/
+theorem C06_response_no_crash (hl : Option Nat) (ds : List Bytes) :
     let c0 : GConn Fail RespState := { st := Response.new, pending := [], total := 0, verdict := .more }
-    ∀ e, (respSys.run c0 ds).verdict = .failed e → ∃ cat, e = .err cat := by
+    ∀ e, ((respSys hl).run c0 ds).verdict = .failed e → ∃ cat, e = .err cat := by
   intro c0
   let P : GConn Fail RespState → Prop := fun c =>
     ((match c.verdict with | .more => True | _ => False) → RespInv c.st) ∧
     ∀ e, c.verdict = .failed e → ∃ cat, e = .err cat
   have h0 : P c0 := ⟨fun _ => respInv_new, by simp [c0]⟩
-  have hstep : ∀ c d, P c → P (respSys.deliver c d) := by
+  have hstep : ∀ c d, P c → P ((respSys hl).deliver c d) := by
     intro c d hc
     unfold Sys.deliver
     cases hv : c.verdict with
@@ -129,23 +129,23 @@ theorem C06_response_no_crash (ds : List Bytes) :
     | more =>
       simp only
       have hI : RespInv c.st := hc.1 (by simp [hv])
-      cases hp : respSys.parse c.st (c.pending ++ d) with
+      cases hp : (respSys hl).parse c.st (c.pending ++ d) with
       | fail e =>
         refine ⟨by simp, ?_⟩
         intro e' he'
         simp at he'; subst he'
         unfold Sys.parse at hp
-        cases hl : respSys.loop (respSys.μ c.st (c.pending ++ d).length) c.st (c.pending ++ d) 0 with
+        cases hlo : (respSys hl).loop ((respSys hl).μ c.st (c.pending ++ d).length) c.st (c.pending ++ d) 0 with
         | none =>
-          have := Sys.loop_isSome respSys_lawful hI (Nat.le_refl _) (acc := 0) (rem := c.pending ++ d)
-          rw [hl] at this; simp at this
-        | some r => simp only [hl] at hp; subst hp; exact respLoop_no_panic hI hl
+          have := Sys.loop_isSome (respSys_lawful hl) hI (Nat.le_refl _) (acc := 0) (rem := c.pending ++ d)
+          rw [hlo] at this; simp at this
+        | some r => simp only [hlo] at hp; subst hp; exact respLoop_no_panic hI hlo
       | ok st s' n =>
-        have := (Sys.parse_inv respSys_lawful hI hp).1
+        have := (Sys.parse_inv (respSys_lawful hl) hI hp).1
         cases st with
         | complete => exact ⟨by simp, by simp⟩
         | incomplete => exact ⟨fun _ => this rfl, by simp⟩
-  suffices ∀ c, P c → P (respSys.run c ds) from (this c0 h0).2
+  suffices ∀ c, P c → P ((respSys hl).run c ds) from (this c0 h0).2
   induction ds with
   | nil => intro c hc; exact hc
   | cons d ds ih => intro c hc; exact ih _ (hstep c d hc)
